@@ -90,7 +90,7 @@ func (propC14) Gen(seed uint64, ex map[string]bool) interface{} {
 		vec(map[string]int{"tokenslice.pool_min_cap": 1, "tokenslice.pool_max_cap": inf, "parser.optimized_threshold": 0, "tokenizer.min_capacity": 2})
 	}
 	if r.P(34) && !ex["real-padding"] {
-		sc.PadKind = pick(r, []string{"text", "comment", "text", "lines", "manycomments"})
+		sc.PadKind = pick(r, []string{"text", "comment", "text", "lines", "manycomments", "constructs", "nesting"})
 		all := []int{60, 250, 1000, 4090, 4097, 5000, 21000, 70000, 110000, 300000}
 		n := r.Range(1, 3)
 		for i := 0; i < n; i++ {
@@ -295,8 +295,60 @@ func (propC14) Run(scI interface{}) *Outcome {
 			if sc.PadKind == "comment" || sc.PadKind == "manycomments" {
 				shortPad = "{#c#}"
 			}
+			const neutral = "{% if false %}x{% endif %}{% for zq9 in [] %}y{% endfor %}"
+			if sc.PadKind == "constructs" {
+				shortPad = neutral
+			}
+			if sc.PadKind == "nesting" {
+				// not a boundary pad: the whole body sits inside D neutral levels (if true / one-element for,
+				// alternating, innermost always the for); reference D = 2
+				body := strings.Join(main.Segs, "")
+				for _, bad := range []string{"{% macro", "{%- macro", "{% block", "{%- block", "{% import", "{%- import", "{% from", "{%- from", "{% extends", "{%- extends"} {
+					if strings.Contains(body, bad) {
+						body = ""
+					}
+				}
+				nest := func(d int) string {
+					var open, cl strings.Builder
+					for i := 0; i < d; i++ {
+						if i%2 == 0 {
+							open.WriteString("{% if true %}")
+						} else {
+							open.WriteString("{% for zq9 in [1] %}")
+						}
+					}
+					for i := d - 1; i >= 0; i-- {
+						if i%2 == 0 {
+							cl.WriteString("{% endif %}")
+						} else {
+							cl.WriteString("{% endfor %}")
+						}
+					}
+					return open.String() + body + cl.String()
+				}
+				if body != "" {
+					ref, _ := c14Render(sc.Prog, nil, nest(2))
+					for _, n := range sc.PadLens {
+						d := 2 * (8 + n%60) // 16 … 134 levels
+						if ref.Class != "ok" {
+							break
+						}
+						got, w := c14Render(sc.Prog, nil, nest(d))
+						o.Probes["padded_renders"]++
+						o.Probes["nested_renders"]++
+						fp = simrt.Mix(fp, w.Fingerprint(), strHash(got.Key()))
+						if got.Key() != ref.Key() {
+							o.FP = fp
+							o.Viol = &Violation{Oracle: "padding-changes-only-padding", Sig: fmt.Sprintf("wrapping the body in more neutral levels changed the result (%s)", got.Class),
+								Detail: fmt.Sprintf("main template %q inside %d alternating if/for levels instead of 2\n expected: %s\n got:      %s err=%s", mainSrc, d, tail(ref.Out, 400), tail(got.Out, 400), got.Err)}
+							return o
+						}
+					}
+				}
+				shortPad = sentinel
+			}
 			ref, _ := c14Render(sc.Prog, nil, build(shortPad))
-			if ref.Class == "ok" {
+			if ref.Class == "ok" && sc.PadKind != "nesting" {
 				for _, n := range sc.PadLens {
 					per := n / (len(main.Segs) + 1)
 					if per < 1 {
@@ -312,6 +364,9 @@ func (propC14) Run(scI interface{}) *Outcome {
 						want = strings.ReplaceAll(ref.Out, sentinel, pad)
 					case "manycomments": // many tokens
 						pad = strings.Repeat("{#c#}", per/5+1)
+						want = ref.Out
+					case "constructs": // many block bodies that render nothing
+						pad = strings.Repeat(neutral, per/len(neutral)+1)
 						want = ref.Out
 					default:
 						pad = "{#" + strings.Repeat("c", per) + "#}"
